@@ -210,22 +210,31 @@ def find_bodystream(ctx):
 def once_taken(ctx, rule):
     """the one-shot variant's payload is an Option that poll takes (so a second poll yields None)"""
     e, pn = find_bodystream(ctx)
-    once = [v for v in e["variants"] if len(v["fields"]) == 1 and v["fields"][0]["ty"].startswith("std::option::Option<std::result::Result<D")]
+    from .common import option_payload_type
+    once = [v for v in e["variants"] if len(v["fields"]) == 1 and (option_payload_type(ctx, v["fields"][0]["ty"]) or "").startswith("std::result::Result<D")]
     if len(once) != 1 or pn is None:
         ctx.violation(rule, rule + "|shape", "UNRECOGNISED: no one-shot variant Option<Result<D, E>> in %s" % e["path"])
         return
-    outs = ctx.px(pn, inline=lambda c, d: "::project" in (c.get("res_path") or ""), key="proj-only")
+    from .common import helper_inline
+    outs = ctx.px(pn, inline=helper_inline(ctx, own=(e["path"],)), key="helpers")
     n = 0
     for o in outs:
         if o.kind != "return":
             continue
-        takes = [ev for ev in o.events if ev["k"] == "call" and ev["callee"].get("path") == "std::option::Option::<T>::take" and ev["fn"] == pn]
+        # the slot is emptied (Option::take, mem::take, mem::replace(.., None)) and the old contents are what is returned
+        takes = [ev for ev in o.events if ev["k"] == "write" and ev.get("via") in ("Option::take", "mem::take", "mem::replace")
+                 and ((is_agg(ev.get("value")) and ev["value"][3] == "None") or (isinstance(ev.get("value"), tuple) and ev["value"][:1] == ("default",)))]
         if not takes:
             continue
         n += 1
         kind, payload = poll_shape(o.value)
         v = o.value
-        okk = is_agg(v) and v[3] == "Ready" and agg_get(v, "0") == takes[0]["result"]
+        old_vals = [ev.get("result") for ev in o.events if ev["k"] == "call" and ev.get("result") is not None and
+                    (ev["callee"].get("path") or "") in ("std::option::Option::<T>::take", "std::mem::take", "std::mem::replace")]
+        got = agg_get(v, "0") if is_agg(v) and v[3] == "Ready" else None
+        okk = got is not None and (got in old_vals or any(
+            (is_agg(got) and got[3] == "Some" and agg_get(got, "0") == ("payload", ov, "Some", "0") and o.cons.variant_of(ov) == "Some") or
+            (is_agg(got) and got[3] == "None" and o.cons.variant_of(ov) == "None") for ov in old_vals))
         if okk:
             ctx.ok(rule, "one-shot body: poll returns Ready(payload.take())", where=where(takes[0]))
         else:
@@ -252,7 +261,8 @@ def body_hint_tables(ctx, r1, r3):
     kinds = {}
     for v in e["variants"]:
         ty = v["fields"][0]["ty"] if v["fields"] else ""
-        if ty.startswith("std::option::Option<std::result::Result<D"):
+        from .common import option_payload_type
+        if (option_payload_type(ctx, ty) or "").startswith("std::result::Result<D"):
             kinds[v["name"]] = "once"
         elif ty.startswith(xadt):
             kinds[v["name"]] = "exactlen"
@@ -381,7 +391,8 @@ def body_constructors(ctx, rule):
     vis = e.get("vis")
     if vis and vis.startswith("Public"):
         ctx.violation(rule, rule + "|public-enum", "the body stream enum is public: bodies can be constructed outside the crate")
-    ctx.floor(rule, n, 6, what="construction sites of the body stream enum")
+    # (how many functions construct a variant is not a quality of the code: every variant has at least one construction site)
+    ctx.floor(rule, len(by), len(e["variants"]), what="variants of the body stream enum with a construction site")
 
 
 def exactlen_ctor_passthrough(ctx, rule):
